@@ -4,27 +4,52 @@ import json
 import os
 import random
 import tempfile
+from concurrent.futures import ThreadPoolExecutor
 
 import runlib
 import tlc
 
-OPTS = ['gc', 'G', 'coverage', 'profile', 'buffer', 'warnings', 'D']
+# 'A' = --gc-after-test (with -vvvv: stopTest analyses the cycles under
+# DEBUG_SAVEALL and puts the flags back)
+OPTS = ['gc', 'G', 'A', 'coverage', 'profile', 'buffer', 'warnings', 'D']
 ENDINGS = ['normal', 'failing', 'hookUp', 'hookDown', 'kbint', 'stop', 'postmortem',
-           'layerKbint', 'skipThenHookDown', 'kbintThenHookDown', 'redirKbint']
+           'layerKbint', 'skipThenHookDown', 'kbintThenHookDown', 'redirKbint',
+           'gcWinKbint']
 HOOKS = ['setUp', 'tearDown', 'testSetUp', 'testTearDown']
+
+# the caller's state of the collector before the run (inputs, by name)
+U, S, T = 'DEBUG_UNCOLLECTABLE', 'DEBUG_SAVEALL', 'DEBUG_STATS'
+PRE_DEBUG = [[], [U], [S], [T], [U, T], [S, T]]
+G_VARIANTS = [[U], [S], [U, S]]
+PRE_THRESHOLD = [[701, 11, 9], [701, 11, 9], [0, 11, 9], [5000, 20, 20], [700, 10, 10]]
+GC_ARGS = [[500], [500, 8], [500, 8, 7], [0]]
+
+DEVS = ('CoverageResetsTrace', 'CoverageStopAllThreads', 'ProfileResetsHook', 'PostMortemResetsTrace',
+        'TeardownOutsideFinally', 'NoCatchWarnings', 'CatchWarningsOnlyIfSet', 'HooksDownBeforeRestore',
+        'TracebackKeepsPrint', 'RestoreOnlyOwnBuffer',
+        'DebugOrAndMask', 'AfterTestClearsDebug', 'AnalysisInterrupted')
 
 
 def make_world(wid, ending, rng):
     """L1 (runs first): t1 snapshots the globals from inside a test and
-    fiddles with the warnings machinery; L2: where the test phase ends."""
+    fiddles with the warnings machinery; L2: where the test phase ends (t3
+    takes another snapshot if it is reached).  Tests leave cyclic garbage
+    behind (what --gc-after-test looks at); printing it may raise."""
     layers = {'L1': {'kind': 'class', 'bases': [], 'hooks': HOOKS},
               'L2': {'kind': 'class', 'bases': [], 'hooks': HOOKS}}
     tests = {
         't1': {'body': [{'a': 'write', 'tok': 'QZ1Q'}, 'snap',
                         {'a': 'fiddle', 'what': rng.choice(['filters', 'showwarning'])}]},
         't2': {'body': [{'a': 'write', 'tok': 'QZ2Q', 'stream': 'stderr'}]},
-        't3': {},
+        't3': {'body': ['snap']},
     }
+    if rng.random() < 0.7:
+        tests['t1']['body'].insert(0, {'a': 'cycle'})
+    if ending == 'gcWinKbint':
+        # Ctrl-C while stopTest prints the garbage this test left behind
+        tests['t2']['body'].append({'a': 'cycle', 'repr': 'kbint'})
+    elif rng.random() < 0.7:
+        tests['t2']['body'].append({'a': 'cycle', 'repr': rng.choice(['ok', 'ok', 'error'])})
     if ending in ('failing', 'stop', 'postmortem'):
         tests['t2']['body'].append(rng.choice(['fail', {'a': 'error'}]))
     elif ending == 'hookUp':
@@ -54,17 +79,31 @@ def make_world(wid, ending, rng):
             'tests': tests}
 
 
-def make_job(cid, opts, ending, pre, rng):
+def make_job(cid, opts, ending, pre, rng, pre_debug=None, gflags=None, v4=None):
     args = []
+    opts = set(opts)
+    if ending == 'gcWinKbint':
+        opts.add('A')
+        v4 = True
+    if pre_debug is None:
+        pre_debug = rng.choice(PRE_DEBUG)
+    if gflags is None:
+        gflags = rng.choice(G_VARIANTS)
+    if v4 is None:
+        v4 = rng.random() < 0.75
     job = {'id': cid, 'world': make_world(cid, ending, rng), 'stdout_kind': 'file',
            'chdir': True,
-           'pre': {'gc_threshold': [701, 11, 9], 'gc_debug': 0, 'warn_filter': True,
+           'pre': {'gc_threshold': rng.choice(PRE_THRESHOLD), 'gc_debug': 0,
+                   'gc_debug_flags': list(pre_debug), 'warn_filter': True,
                    'tb_patch': rng.random() < 0.5, 'hooks': pre}}
     if 'gc' in opts:
-        for v in [[500], [500, 8], [500, 8, 7]][rng.randrange(3)]:
+        for v in rng.choice(GC_ARGS):
             args += ['--gc', str(v)]
     if 'G' in opts:
-        args += ['-G', 'DEBUG_UNCOLLECTABLE']
+        for f in gflags:
+            args += ['-G', f]
+    if 'A' in opts:
+        args += ['--gc-after-test']
     if 'coverage' in opts:
         args += ['--coverage', 'covdir']
     if 'profile' in opts:
@@ -78,12 +117,16 @@ def make_job(cid, opts, ending, pre, rng):
         job['stdin'] = 'c\nc\nc\n'
     if ending == 'stop':
         args += ['-x']
-    if rng.random() < 0.5:
-        args += ['-v']
+    if 'A' in opts and v4:
+        args += ['-vvvv']
+    elif rng.random() < 0.5:
+        args += [rng.choice(['-v', '-v', '-vvv'])]
     job['args'] = args
     job['meta'] = {'opts': sorted(set(opts) | ({'D'} if ending == 'postmortem' else set())
                                   | ({'x'} if ending == 'stop' else set())),
-                   'ending': ending, 'pre': pre}
+                   'ending': ending, 'pre': pre,
+                   'gbits': list(gflags) if 'G' in opts else [],
+                   'v4': bool('A' in opts and v4), 'pre_debug': list(pre_debug)}
     return job
 
 
@@ -95,7 +138,10 @@ def record(job, res):
             'ending': job['meta']['ending'], 'raised': res.get('crashed', '') or '',
             'began': any(e['e'] in ('LsetUpBegin', 'T', 'LtestSetUp') for e in evs) and bool(before),
             'before': before or {'_': ''}, 'after': res.get('after') or {'_': ''},
-            'hasMid': bool(mids), 'mid': mids[0] if mids else (before or {'_': ''})}
+            'hasMid': bool(mids), 'mid': mids[0] if mids else (before or {'_': ''}),
+            'mid2': mids[-1] if mids else (before or {'_': ''}),
+            'gbits': job['meta'].get('gbits', []), 'v4': bool(job['meta'].get('v4')),
+            'win': [e['bits'] for e in evs if e['e'] == 'GcRepr' and e.get('inwin')]}
 
 
 def validate(chk, recs, label):
@@ -122,7 +168,11 @@ def run_jobs(chk, jobs, label):
             chk.machinery('no GLOB line for %s' % j['id'])
             continue
         chk.traces += 1
-        chk.nontrivial.add(json.dumps([rec['opts'], rec['pre'], rec['ending']]))
+        chk.nontrivial.add(json.dumps([rec['opts'], rec['pre'], rec['ending'],
+                                       j['meta'].get('pre_debug'), rec['gbits'], rec['v4']]))
+        if rec['win']:
+            chk.extra['runs_with_analysis_window_observed'] = \
+                chk.extra.get('runs_with_analysis_window_observed', 0) + 1
         raised.setdefault(rec['ending'], set()).add(rec['raised'])
         clause, arg = v
         if clause == 'DRIFT':
@@ -137,6 +187,8 @@ def run_jobs(chk, jobs, label):
                 sig += '|' + ('coverage' if 'coverage' in rec['opts'] and arg in ('sysTrace', 'thrTrace')
                               else 'post-mortem' if 'D' in rec['opts'] and arg == 'sysTrace'
                               else 'profile' if 'profile' in rec['opts'] else 'other')
+            elif arg == 'gcDebug' and rec['ending'] == 'gcWinKbint':
+                sig += '|interrupt-in-gc-after-test-analysis'
             chk.violation(sig, '%s: %s differs after the run (options %s, ending %s, raised %r): %r -> %r'
                           % (clause, arg, rec['opts'], rec['ending'], rec['raised'],
                              rec['before'].get(arg), rec['after'].get(arg)),
@@ -149,40 +201,62 @@ def run_jobs(chk, jobs, label):
         chk.machinery('%d of %d runs never reached the test phase' % (notbegun, len(jobs)))
 
 
+def model_check(chk):
+    """design configurations must pass, every deviation must give a
+    counterexample; the runs are independent, a few at a time"""
+    cfgs = [('GlobalState_design', True), ('GlobalState_gc', True)] + \
+           [('GlobalState_dev_' + d, False) for d in DEVS]
+    with ThreadPoolExecutor(max_workers=4) as ex:
+        futs = [ex.submit(tlc.run, 'GlobalState', c, workers=6 if ok else 4,
+                          timeout=900 if ok else 600) for c, ok in cfgs]
+        for (c, ok), fut in zip(cfgs, futs):
+            res = fut.result()
+            if ok:
+                chk.add_tlc(c, res)
+            else:
+                chk.add_tlc(c[len('GlobalState_'):], res, expect_ok=False)
+                if not res.violation:
+                    chk.machinery('deviation config %s did not produce a counterexample'
+                                  % c[len('GlobalState_dev_'):])
+
+
 def run(chk, tier, seed, replay=None):
     chk.rule = ('(1) TLC: GlobalState.tla - Runner.run as a pipeline (catch_warnings, '
                 'global_setup / late_setup of Coverage, Profiling, gc Threshold, gc Debug, '
-                'Traceback; per-test startTest / body / stopTest; early_teardown / '
-                'global_teardown in finally) for all 2^8 option subsets x 8 endings of the '
-                'test phase x caller without own hooks / with sys and threading trace hooks (two functions) and a profile hook / with a sys trace hook only: Restored, HooksRestored, '
-                'Terminates, mid-run state as predicted; ten deviation configs must each give a counterexample. (2) real '
-                'runs in a fresh interpreter each, with a non-default caller state (gc threshold '
-                '(701,11,9), an extra warnings filter, wrapped traceback functions, optionally own '
+                'Traceback; per-test startTest / body / stopTest incl. the DEBUG_SAVEALL window of '
+                '--gc-after-test at verbosity >= 4; early_teardown / global_teardown in finally); gc debug '
+                'flags are sets of bits. GlobalState_design: all 2^8 option subsets (-x tied to its ending) x 9 endings of the '
+                'test phase x caller without own hooks / with sys and threading trace hooks (two functions) and a profile hook / with a sys trace hook only; '
+                'GlobalState_gc: subsets of {--gc, -G, --gc-after-test, -D, --buffer} x -G naming {UNCOLLECTABLE} / {SAVEALL} / both x '
+                'verbosity >= 4 or not x 7 caller debug-flag states (none, overlapping with -G, disjoint, SAVEALL) x 9 endings (incl. KeyboardInterrupt '
+                'inside the analysis window): Restored, HooksRestored, '
+                'Terminates, mid-run state and flags as predicted; 13 deviation configs must each give a counterexample. (2) real '
+                'runs in a fresh interpreter each, with a non-default caller state (gc thresholds '
+                '(701,11,9) / (0,11,9) / (5000,20,20) / default, gc debug flags from 6 states, an extra warnings filter, wrapped traceback functions, optionally own '
                 'trace / profile hooks): option subsets (quick: pairwise + all singles, thorough: '
-                'all 2^7) x 11 endings (normal, failing, exception from testSetUp / testTearDown, '
-                'KeyboardInterrupt in a test / in a layer setUp, -x, -D post-mortem, skip or '
-                'KeyboardInterrupt followed by a raising testTearDown, KeyboardInterrupt in a test that had replaced sys.stdout for itself); snapshots before / inside a '
-                'test / after are compared by TLC; distinct = distinct (options, caller hooks, ending)')
+                'all 2^8) x 12 endings (normal, failing, exception from testSetUp / testTearDown, '
+                'KeyboardInterrupt in a test / in a layer setUp / while stopTest prints the cyclic garbage of a test, -x, -D post-mortem, skip or '
+                'KeyboardInterrupt followed by a raising testTearDown, KeyboardInterrupt in a test that had replaced sys.stdout for itself); '
+                'a family crossing every caller flag state with every -G variant and --gc-after-test; tests leave cyclic garbage whose printing may raise; snapshots before / inside a '
+                'test / after (and the flags seen inside the analysis window) are compared by TLC; distinct = distinct (options, caller hooks, ending, caller flags, -G flags, verbosity)')
     chk.assumptions += ['doctest report flags, pdb.set_trace and the root logging handler are named non-goals (DESIGN 5/C18)',
-                        'exceptions raised before the test phase begins are outside the statement']
+                        'exceptions raised before the test phase begins are outside the statement',
+                        'gc.garbage (emptied by the --gc-after-test analysis) and gc.isenabled() (never touched by the runner) are not part of the statement']
     if replay:
         with open(replay) as f:
             r = json.load(f)
         run_jobs(chk, [r['job']], 'replay')
         return
     rng = random.Random(seed * 7919 + 18)
-    chk.add_tlc('GlobalState_design', tlc.run('GlobalState', 'GlobalState_design', timeout=900))
-    for dev in ('CoverageResetsTrace', 'CoverageStopAllThreads', 'ProfileResetsHook', 'PostMortemResetsTrace', 'TeardownOutsideFinally', 'NoCatchWarnings', 'CatchWarningsOnlyIfSet',
-                'HooksDownBeforeRestore', 'TracebackKeepsPrint', 'RestoreOnlyOwnBuffer'):
-        res = tlc.run('GlobalState', 'GlobalState_dev_' + dev, timeout=600)
-        chk.add_tlc('dev_' + dev, res, expect_ok=False)
-        if not res.violation:
-            chk.machinery('deviation config %s did not produce a counterexample' % dev)
+    n = len(ENDINGS)
     if tier == 'quick':
         subsets = [()] + [(o,) for o in OPTS] + list(itertools.combinations(OPTS, 2)) + [tuple(OPTS)]
         combos = []
         for k, s in enumerate(subsets):
-            for e in (ENDINGS[k % len(ENDINGS)], ENDINGS[(k * 3 + 1) % len(ENDINGS)], rng.choice(ENDINGS)):
+            ends = [ENDINGS[k % n], ENDINGS[(k * 5 + 1) % n]]
+            if k % 2:
+                ends.append(rng.choice(ENDINGS))
+            for e in ends:
                 combos.append((s, e))
         combos += [(('buffer',), e) for e in ENDINGS] + [(tuple(OPTS), e) for e in ENDINGS]
     else:
@@ -200,6 +274,26 @@ def run(chk, tier, seed, replay=None):
             for pre in ('both', 'sys'):
                 k += 1
                 jobs.append(make_job('p%d' % k, s, e, pre, rng))
+    # the caller's collector state against what the options name: every caller
+    # flag state x every -G variant (with and without --gc-after-test), and
+    # --gc-after-test alone; the same cases for every seed
+    gc_endings = ['normal', 'failing', 'kbint', 'hookDown', 'gcWinKbint', 'stop', 'hookUp', 'postmortem']
+    k = 0
+    for pd in PRE_DEBUG:
+        for gv in G_VARIANTS:
+            a = k % 3       # 0: no --gc-after-test, 1: with -vvvv, 2: below -vvvv
+            e = gc_endings[k % len(gc_endings)]
+            if e == 'gcWinKbint' and a != 1:
+                e = 'kbint'
+            jobs.append(make_job('d%d' % k, ('G', 'A') if a else ('G',), e, 'none', rng,
+                                 pre_debug=pd, gflags=gv, v4=(a == 1)))
+            k += 1
+        for e in (('normal', 'gcWinKbint') if tier == 'quick' else gc_endings):
+            jobs.append(make_job('d%d' % k, ('A',), e, 'none', rng, pre_debug=pd, v4=True))
+            k += 1
     chk.sample({'args': jobs[5]['args'], 'meta': jobs[5]['meta'], 'pre': jobs[5]['pre'],
                 'world': jobs[5]['world']})
+    chk.sample({'args': jobs[-1]['args'], 'meta': jobs[-1]['meta'], 'pre': jobs[-1]['pre'],
+                'world': jobs[-1]['world']})
+    model_check(chk)
     run_jobs(chk, jobs, 'runs')
